@@ -37,8 +37,9 @@ def gen_feat(rng):
     if key is not None:
         attrs.append(["ID", [key]])
     if rng.random() < 0.6:
-        attrs.append([rng.choice(["Name", "Note"]), sorted(set(rng.choice(["x", "y", "z", "é", "1", "10", "2"])
-                                                             for _ in range(rng.choice([1, 1, 2, 3]))))])
+        vs = [rng.choice(["x", "y", "z", "é", "1", "10", "2"]) for _ in range(rng.choice([1, 1, 2, 3]))]
+        # mostly a sorted set; sometimes with a repeated value inside one list (Note=x,x): merging still gives no repeats
+        attrs.append([rng.choice(["Name", "Note"]), vs if rng.random() < 0.25 else sorted(set(vs))])
     if rng.random() < 0.4:
         attrs.append(["Parent", sorted(set(rng.choice(["p1", "p2", "a", "b"]) for _ in range(rng.choice([1, 1, 2]))))])
     s = rng.choice([1, 1, 1, 20])
@@ -65,7 +66,8 @@ def gen_cases(rng, tier):
     for i in range(nrand):
         st = STRATS[i % 5] if rng.random() < 0.6 else "merge"
         force = rng.choice(FORCES) if st == "merge" else []
-        cases.append({"strategy": st, "force": force, "feats": [gen_feat(rng) for _ in range(rng.choice([2, 3, 4, 5, 6, 8]))]})
+        cases.append({"strategy": st, "force": force, "feats": [gen_feat(rng) for _ in range(rng.choice([2, 3, 4, 5, 6, 8]))],
+                      "debug": i % 7 == 3})
     # the GTF importer has its own copy of the dispatch: colliding gene/transcript lines, inference off
     for i in range(nrand // 3):
         st = STRATS[i % 5]
@@ -210,7 +212,8 @@ def run_impl(c):
         st, db = imp.run_create(c["feats"], fmt="gtf", merge_strategy=c["strategy"], disable_infer_genes=True,
                                 disable_infer_transcripts=True, force_merge_fields=list(c["force"]) or None)
     else:
-        st, db = imp.run_create(c["feats"], merge_strategy=c["strategy"], force_merge_fields=list(c["force"]) or None)
+        st, db = imp.run_create(c["feats"], merge_strategy=c["strategy"], force_merge_fields=list(c["force"]) or None,
+                                **({"verbose": "debug"} if c.get("debug") else {}))
     if st == "err":
         return {"tables": ["err", db]}
     t = imp.dump_tables(db.conn)
